@@ -33,7 +33,12 @@ def all_keys():
     return list(E.elements) + list(progs.MODIFIER_ARITY) + ["X", "x"]
 
 
-def literal_texts():
+ESCAPE_ALPHABET = ["\\", "x", "u", "U", "N", "{", "}", "0", "4", "7", "8", "a", "n", '"', "'", "\n", " "]
+ESCAPE_FAMILY = ["\\x4", "\\x41", "\\x4g", "\\u004", "\\u0041", "\\ud800", "\\U0000004", "\\U00000041", "\\U00110000", "\\U0010ffff",
+                 "\\N{DIGIT ONE}", "\\N{NO SUCH NAME}", "\\N{", "\\N}", "\\N{}", "\\N{DIGIT ONE", "a\\x", "\\\\x", "\\\\\\x", "\\x\\x41", "\\777", "\\400"]
+
+
+def literal_texts(deep=False):
     """every literal token kind with every code-page character as payload (a literal is a valid token in every position too)"""
     import vyxal.encoding as enc
 
@@ -49,6 +54,16 @@ def literal_texts():
             out.append("«" + c + "« ")
         if c != "»":
             out.append("»" + c + "» ")
+    # strings as a programmer types them: a backslash followed by anything (the lowering passes Python escapes through, so every
+    # backslash sequence - complete, truncated or unknown - must still give a valid Python literal)
+    for n in (2, 3):
+        for pl in itertools.product(ESCAPE_ALPHABET, repeat=n):
+            if n == 3 and not deep and pl[0] != "\\":
+                continue
+            out.append("`" + "".join(pl) + "` ")
+            if n == 2:
+                out.append("‛" + "".join(pl) + " ")
+    out += ["`%s` " % t for t in ESCAPE_FAMILY]
     out += ["1.5 ", ". ", "5. ", ".5 ", "0 ", "00 ", "1°2 ", "° ", "1° ", "°2 ", "→a ", "←a ", "→ ", "← ", "→_a ", "←_a ", "#c\n", "`a\\nb` ", "`` "]
     return out
 
@@ -210,7 +225,7 @@ def run(tier, seed):
         "top", "if-else", "if-elif-cond", "for", "while-cond", "while-body", "fn", "lambda", "list-1",
         "v", "ß", "₌B", "after-R", "after-⁽", "after-‡")]
     explore.pmap(_ctx_shard, [(c, outer, inner, None) for c in explore.chunks(keys, 64)], rep, seed)
-    lits = literal_texts()
+    lits = literal_texts(deep=not quick)
     lit_ctx = [c for c in ctxs if c[0] in ("top", "if-else", "for", "while-cond", "fn", "lambda", "list-1", "v", "₌B", "after-R")]
     explore.pmap(_lit_shard, [(c, lit_ctx) for c in explore.chunks(lits, 64)], rep, seed)
     explore.pmap(_name_shard, explore.chunks(name_programs(), 32), rep, seed)
